@@ -11,12 +11,6 @@ import (
 	"github.com/rulego/streamsql/utils/fieldpath"
 )
 
-// nullGroupKeyMarker is the group-key segment for a missing/nil group field
-// (e.g. a LEFT JOIN row with no match). Rows sharing it collapse into one NULL
-// group; GetResults maps it back to nil. The \x00 byte avoids collisions with
-// realistic field values.
-const nullGroupKeyMarker = "\x00NULL"
-
 // groupKeySep 分隔分组键各字段。\x1f（单元分隔符）在真实数据中极少出现，避免字段值含
 // 分隔符导致的键碰撞（曾用 "|"：含 "|" 的值会被还原阶段截断、多字段还会错位）。
 const groupKeySep = "\x1f"
@@ -210,19 +204,17 @@ func (ga *GroupAggregator) Add(data any) error {
 		}
 
 		// Missing or nil group field (e.g. a LEFT JOIN row with no match)
-		// collapses into a single NULL group keyed by the sentinel; GetResults
-		// maps it back to nil. Avoids dropping the whole row on a nullable key.
+		// collapses into a single NULL group (cast.GroupKeyPart(nil) cannot be
+		// produced by any real value); GetResults maps it back to nil. Avoids dropping the whole row on a nullable key.
 		if !found || fieldVal == nil {
-			key += nullGroupKeyMarker + groupKeySep
+			key += cast.GroupKeyPart(nil, groupKeySep[0]) + groupKeySep
 			keyVals = append(keyVals, nil)
 			continue
 		}
 
-		if str, ok := fieldVal.(string); ok {
-			key += str + groupKeySep
-		} else {
-			key += fmt.Sprintf("%v", fieldVal) + groupKeySep
-		}
+		// Escape the separator inside values so distinct tuples never share a key
+		// (and a value equal to the NULL marker cannot join the NULL group).
+		key += cast.GroupKeyPart(fieldVal, groupKeySep[0]) + groupKeySep
 		keyVals = append(keyVals, fieldVal)
 	}
 
